@@ -75,12 +75,12 @@ type regEvent struct {
 	client    int
 }
 
-var c19Keys = []string{"SZSE_BIN", "CRC32"}
+var c19Keys = []string{"SZSE_BIN", "CRC32", "SSE_BIN"} // the three names generated frame encoders look up
 
 var regModel = porcupine.Model{
-	Init: func() any { return [2]int64{} },
+	Init: func() any { return [3]int64{} },
 	Step: func(st, in, out any) (bool, any) {
-		s := st.([2]int64)
+		s := st.([3]int64)
 		i, o := in.(regIn), out.(regOut)
 		switch i.Op {
 		case opRegistry:
@@ -101,13 +101,13 @@ var regModel = porcupine.Model{
 			s[i.Key] = 0
 			return true, s
 		case opClear:
-			return true, [2]int64{}
+			return true, [3]int64{}
 		case opRemoveOther:
 			return true, s
 		}
 		return false, s
 	},
-	Equal: func(a, b any) bool { return a.([2]int64) == b.([2]int64) },
+	Equal: func(a, b any) bool { return a.([3]int64) == b.([3]int64) },
 	DescribeOperation: func(in, out any) string {
 		i, o := in.(regIn), out.(regOut)
 		switch i.Op {
@@ -133,7 +133,7 @@ func doOp(in regIn) regOut {
 		if in.Key == 0 {
 			return regOut{OK: codec.Registry(&svcI32{svc{name: c19Keys[0], id: in.ID}})}
 		}
-		return regOut{OK: codec.Registry(&svcU32{svc{name: c19Keys[1], id: in.ID}})}
+		return regOut{OK: codec.Registry(&svcU32{svc{name: c19Keys[in.Key], id: in.ID}})}
 	case opGet:
 		s, ok := codec.Get(c19Keys[in.Key])
 		if !ok {
@@ -158,6 +158,12 @@ func doOp(in regIn) regOut {
 		err, p := mon.Call(func() error {
 			if in.Key == 0 {
 				f := &szse.SzseBinary{MsgType: 3, Body: &szse.Heartbeat{}, Checksum: encSentinel}
+				e := f.Encode(new(bytes.Buffer))
+				sum = int64(f.Checksum)
+				return e
+			}
+			if in.Key == 2 {
+				f := &sse.SseBinary{MsgType: 33, Body: &sse.Heartbeat{}, Checksum: encSentinel}
 				e := f.Encode(new(bytes.Buffer))
 				sum = int64(f.Checksum)
 				return e
@@ -216,7 +222,7 @@ func recordHistory(rng *gen.Rng, hist int, shape int) []regEvent {
 				}
 			} else {
 				x := rng.Intn(100)
-				key := rng.Intn(2)
+				key := rng.Intn(len(c19Keys))
 				switch {
 				case x < 38:
 					in = regIn{Op: opRegistry, Key: key, ID: id}
@@ -245,7 +251,7 @@ func recordHistory(rng *gen.Rng, hist int, shape int) []regEvent {
 		}
 		plans[0][0] = regIn{Op: opRemoveOther}
 		for c := 1; c < clients; c++ {
-			plans[c][0] = regIn{Op: opRegistry, Key: c % 2, ID: int64(hist%1000)*1_000_000 + int64(c+1)*1000 + 1}
+			plans[c][0] = regIn{Op: opRegistry, Key: c % len(c19Keys), ID: int64(hist%1000)*1_000_000 + int64(c+1)*1000 + 1}
 		}
 	} else if hist%2 == 1 {
 		// a populated registry: copy-on-write or entry-by-entry implementations have a much wider window then
@@ -296,7 +302,7 @@ func recordHistory(rng *gen.Rng, hist int, shape int) []regEvent {
 		evs = append(evs, l...)
 	}
 	// quiescent reads: one sequential Get per key after everybody has returned
-	for k := 0; k < 2; k++ {
+	for k := 0; k < len(c19Keys); k++ {
 		for _, op := range []int{opGet, opEncode} {
 			t0 := int64(time.Since(start))
 			out := doOp(regIn{Op: op, Key: k})
@@ -579,7 +585,7 @@ func c19(e *Env) {
 		}
 		return
 	}
-	r.Rule("short concurrent histories against the real registry: shape A = 6 goroutines × 5 operations on the 2 algorithm names that generated frame encoders look up (SZSE_BIN, CRC32), mix 38% Registry / 15% Get / 17% EncodeLookup (a real SzseBinary / RootPacket frame encode; the harness services return their registration id as checksum, so the trailer reveals which registration the encoder's internal look-up saw) / 25% Remove / 5% Clear; every second history starts from a registry that also holds 64 background names; shape B (every 5th) = 12 goroutines all registering the same fresh name at once, then looking it up; every 10th history uses 3 goroutines × 10 operations, another every 10th 10 goroutines × 3, another every 10th is a drain history (the registry held 70 names and was emptied by single Removes; the last Remove races registrations of the modelled names); goroutines are released by a busy-wait barrier so calls genuinely overlap, with private random jitter between (never inside) calls; every registered service carries a unique id so that a look-up identifies the registration it saw; one sequential Get per name is appended after the goroutines have joined. Histories are recorded at the client boundary into per-goroutine slices with one monotonic clock (no shared recorder state inside the measured region). The workload runs in its own child process (it clears the built-in services; a runtime 'concurrent map' abort must not take the monitor down), once in a plain build and once in a -race build; plus ten fresh processes whose very first registry calls are Clear / Remove / Registry / Get on the names of the built-in services, five of them with frame encodes and decodes of every frame type in between while the name holds nothing, a built-in, or an application service whose Calc has the expected or ANOTHER result type or is missing (sequential, judged against the model started from the four built-ins: library work never changes the registry). distinct_nontrivial = histories with at least one real-time overlap between calls of different goroutines")
+	r.Rule("short concurrent histories against the real registry: shape A = 6 goroutines × 5 operations on the 3 algorithm names that generated frame encoders look up (SZSE_BIN, CRC32, SSE_BIN), mix 38% Registry / 15% Get / 17% EncodeLookup (a real SzseBinary / RootPacket / SseBinary frame encode; the harness services return their registration id as checksum, so the trailer reveals which registration the encoder's internal look-up saw) / 25% Remove / 5% Clear; every second history starts from a registry that also holds 64 background names; shape B (every 5th) = 12 goroutines all registering the same fresh name at once, then looking it up; every 10th history uses 3 goroutines × 10 operations, another every 10th 10 goroutines × 3, another every 10th is a drain history (the registry held 70 names and was emptied by single Removes; the last Remove races registrations of the modelled names); goroutines are released by a busy-wait barrier so calls genuinely overlap, with private random jitter between (never inside) calls; every registered service carries a unique id so that a look-up identifies the registration it saw; one sequential Get per name is appended after the goroutines have joined. Histories are recorded at the client boundary into per-goroutine slices with one monotonic clock (no shared recorder state inside the measured region). The workload runs in its own child process (it clears the built-in services; a runtime 'concurrent map' abort must not take the monitor down), once in a plain build and once in a -race build; plus ten fresh processes whose very first registry calls are Clear / Remove / Registry / Get on the names of the built-in services, five of them with frame encodes and decodes of every frame type in between while the name holds nothing, a built-in, or an application service whose Calc has the expected or ANOTHER result type or is missing (sequential, judged against the model started from the four built-ins: library work never changes the registry). distinct_nontrivial = histories with at least one real-time overlap between calls of different goroutines")
 	r.Explain("Oracle 1: porcupine v1.3.0 linearizability check of every recorded history against a 25-line sequential map model (Registry succeeds iff the name is absent; Get returns the current registration or absent; Remove; Clear), unpartitioned because Clear spans names; checker timeout 10 s per history ⇒ inconclusive, never a violation. Oracle 2: Go race detector on the same workload (reports counted from the log), and the runtime's own 'concurrent map read and map write' abort. Oracle 3: the quiescent final Gets must be explained by the same linearization (a lost or duplicated insert nobody happened to read is still caught); shape B additionally asserts exactly one winner that the later look-up returns. A Get that returns a service whose own name differs from the name asked for can never be explained.")
 	r.Assume("linearizability is decided for the histories recorded, not for all interleavings", "the race detector judges only the accesses the workload performed")
 	runBuild := func(bin, mode, label string) {
